@@ -18,7 +18,7 @@ var slistShape = map[string]Shape13{
 	"SList.Remove":        {Loops: 1, Calls: []string{"SList.withinRange"}, Headers: []string{"index := 0; index ? i; index++"}},
 	"SList.RemoveFront":   {},
 	"SList.PushFrontNode": {}, "SList.PushBackNode": {},
-	"SList.InsertNodeAt": {Loops: 1, Calls: []string{"SList.PushBackNode", "SList.PushFrontNode"}, Headers: []string{"index := 0; index ? i-1; index++"}},
+	"SList.InsertNodeAt": {Loops: 1, Calls: []string{"SList.PushBackNode", "SList.PushFrontNode"}, Headers: []string{"index := 0; index ? i-#; index++"}},
 	"SList.PushFront":    {Calls: []string{"SList.PushFrontNode"}},
 	"SList.PushBack":     {Calls: []string{"SList.PushBackNode"}},
 	"SList.InsertAt":     {Calls: []string{"SList.InsertNodeAt"}},
